@@ -25,6 +25,9 @@ pub struct GenCfg {
     pub newline_items: bool,
     /// 0 = general; 1 = declaration-heavy (C06); 2 = mutability-heavy (C08); 3 = selfdestruct-heavy (C07)
     pub focus: u8,
+    /// expressions may mention state variables of *other* contracts of the file (inherited members are
+    /// written like that); off wherever C19's precondition (items do not share names) must hold
+    pub cross_contract_names: bool,
 }
 
 impl Default for GenCfg {
@@ -39,6 +42,7 @@ impl Default for GenCfg {
             pragma_mode: 0,
             newline_items: true,
             focus: 0,
+            cross_contract_names: false,
         }
     }
 }
@@ -222,6 +226,7 @@ pub struct Gen<'t, 'd> {
     n_local: usize,
     n_contract: usize,
     state_vars: Vec<String>,
+    all_state_vars: Vec<String>,
     params: Vec<String>,
     locals: Vec<String>,
     pub budget: i64,
@@ -238,6 +243,7 @@ pub fn gen_program(t: &mut Tape, cfg: &GenCfg) -> String {
         n_local: 0,
         n_contract: 0,
         state_vars: vec![],
+        all_state_vars: vec![],
         params: vec![],
         locals: vec![],
         budget: 4000,
@@ -504,7 +510,12 @@ impl<'t, 'd> Gen<'t, 'd> {
                 if k > 0 {
                     self.w(",");
                 }
-                self.wp(&["Base", "Ownable", "A . B"]);
+                if self.cfg.cross_contract_names && self.n_contract > 1 && self.t.chance(128) {
+                    let b = format!("C{}", 1 + self.t.below(self.n_contract - 1));
+                    self.w(&b);
+                } else {
+                    self.wp(&["Base", "Ownable", "A . B"]);
+                }
                 if self.t.chance(100) {
                     self.w("(");
                     self.args(1);
@@ -651,6 +662,7 @@ impl<'t, 'd> Gen<'t, 'd> {
             }
         }
         self.w(";");
+        self.all_state_vars.push(name.clone());
         self.state_vars.push(name);
     }
 
@@ -1093,6 +1105,9 @@ impl<'t, 'd> Gen<'t, 'd> {
 
     /// an identifier: state variable of the current contract, parameter, local or generic
     fn name(&mut self) -> String {
+        if self.cfg.cross_contract_names && !self.all_state_vars.is_empty() && self.t.chance(40) {
+            return self.all_state_vars[self.t.below(self.all_state_vars.len())].clone();
+        }
         let pools = [self.state_vars.len(), self.params.len(), self.locals.len()];
         match self.t.below(6) {
             0 | 1 if pools[0] > 0 => self.state_vars[self.t.below(pools[0])].clone(),
